@@ -5,17 +5,18 @@ From Coq Require Import List NArith Bool Arith.
 Import ListNotations.
 Local Open Scope N_scope.
 
-(* binary.AppendUvarint(nil, x):
+(* binary.AppendUvarint(nil, x) for x : uint64:
      for x >= 0x80 { buf = append(buf, byte(x)|0x80); x >>= 7 }; append(buf, byte(x))
-   byte(x)|0x80 = x mod 128 + 128.  Fuel = bit size of x + 1, always enough
-   (put_uvarint_fuel_enough): the Go loop has no failure case. *)
+   byte(x)|0x80 = x mod 128 + 128.  A uint64 needs at most 9 continuation
+   bytes, after which x < 2: fuel 9 is exact for every x < 2^64 (the Go
+   argument type); the Go loop has no failure case. *)
 Fixpoint put_uvarint_fuel (fuel : nat) (x : N) : list N :=
   match fuel with
   | O => [x]
   | S f => if x <? 128 then [x] else (x mod 128 + 128) :: put_uvarint_fuel f (x / 128)
   end.
 
-Definition put_uvarint (x : N) : list N := put_uvarint_fuel (N.size_nat x) x.
+Definition put_uvarint (x : N) : list N := put_uvarint_fuel 9 x.
 
 (* Result of binary.Uvarint(buf) = (value, n):
      UvOk x n   : n > 0 bytes read, value x
@@ -27,6 +28,9 @@ Inductive uvres : Type :=
 | UvOver (k : nat).
 
 Definition two64 : N := 18446744073709551616.
+(* v mod 2^64, without running a division when there is nothing to reduce
+   (wrap64_mod: wrap64 v = v mod two64 for every v) *)
+Definition wrap64 (v : N) : N := if v <? two64 then v else v mod two64.
 
 (* binary.Uvarint:
      var x uint64; var s uint
@@ -38,7 +42,7 @@ Definition two64 : N := 18446744073709551616.
        x |= uint64(b&0x7f) << s
        s += 7 }
      return 0, 0
-   uint64 shifts wrap: written with mod 2^64. *)
+   uint64 shifts wrap: written with wrap64 (= mod 2^64). *)
 Fixpoint uvarint_go (buf : list N) (i : nat) (x : N) (s : N) : uvres :=
   match buf with
   | [] => UvShort
@@ -46,8 +50,8 @@ Fixpoint uvarint_go (buf : list N) (i : nat) (x : N) (s : N) : uvres :=
       if Nat.eqb i 10 then UvOver (S i)
       else if b <? 128 then
         if Nat.eqb i 9 && (1 <? b) then UvOver (S i)
-        else UvOk (N.lor x (N.shiftl b s mod two64)) (S i)
-      else uvarint_go r (S i) (N.lor x (N.shiftl (N.land b 127) s mod two64)) (s + 7)
+        else UvOk (N.lor x (wrap64 (N.shiftl b s))) (S i)
+      else uvarint_go r (S i) (N.lor x (wrap64 (N.shiftl (N.land b 127) s))) (s + 7)
   end.
 
 Definition uvarint (buf : list N) : uvres := uvarint_go buf 0 0 0.
